@@ -97,6 +97,8 @@ def t_strings(rng, lvl, u):
             if kind == "b" and ("\\u" in t or "\\U" in t):
                 kind = ""
             out.append("s%s_%d = %s'%s'" % (u, i, kind, t.replace("'", "\\'")))
+    # always: non-ASCII text together with control characters and both quote characters (one listing row per instruction)
+    out.append("sm%s = %s'\\u00e9\\u4e2d\\n\\r\\x0b\\t\\'\"end'" % (u, "u" if lvl < (3, 0) else ""))
     out.append("print(len(s%s_0))" % u)
     return "\n".join(out)
 
